@@ -187,7 +187,7 @@ pub fn rand_text(r: &mut Rng) -> String {
 
 pub fn rand_f64(r: &mut Rng) -> f64 {
     match r.below(8) {
-        0 => *r.pick(&[0.0, -0.0, 1.0, -1.0, 0.1, 1e16, 1e-7, 1e21, 5e-324, f64::MAX, f64::MIN_POSITIVE, 123456789.125]),
+        0 => *r.pick(&[0.0, -0.0, 1.0, -1.0, 0.1, 1e16, 1e-7, 1e21, 5e-324, f64::MAX, f64::MIN_POSITIVE, 123456789.125, f64::INFINITY, f64::NEG_INFINITY, f64::NAN]),
         1 => (r.next() as i64 as f64) / 1000.0,
         2 => r.below(1000) as f64,
         3 => f64::from_bits(r.next()),
@@ -202,7 +202,7 @@ pub fn rand_f64(r: &mut Rng) -> f64 {
 
 pub fn rand_f32(r: &mut Rng) -> f32 {
     match r.below(6) {
-        0 => *r.pick(&[0.0f32, -0.0, 1.0, 0.1, 1e10, 1e-10, f32::MAX, f32::MIN_POSITIVE, 1.0e-45, 1678.6666, 16777216.0]),
+        0 => *r.pick(&[0.0f32, -0.0, 1.0, 0.1, 1e10, 1e-10, f32::MAX, f32::MIN_POSITIVE, 1.0e-45, 1678.6666, 16777216.0, f32::INFINITY, f32::NAN]),
         1 => f32::from_bits(r.next() as u32),
         2 => r.below(100000) as f32 / 100.0,
         3 => {
